@@ -73,7 +73,7 @@ pub(crate) mod u6x {
         std::env::var(k).ok().and_then(|v| v.parse().ok()).unwrap_or(d)
     }
     pub fn cfg() -> Cfg {
-        let all = [K::Struct2, K::Array2, K::Array1, K::Enum, K::Str, K::Struct1, K::Array0, K::Struct0];
+        let all = [K::Struct2, K::Array1, K::Enum, K::Array2, K::Str, K::Struct1, K::Array0, K::Struct0];
         let nk = env_usize("U6X_KINDS", 5).min(all.len());
         Cfg {
             n: env_usize("U6X_N", 2),
